@@ -2072,6 +2072,12 @@ void sm9_z256_point_add_affine(SM9_Z256_POINT *R, const SM9_Z256_POINT *P, const
 	
 	sm9_z256_t X3, Y3, Z3, T1, S2, H, I;
 
+	// P = O: the mixed addition formulas would give (0, 0, 0)
+	if (sm9_z256_point_is_at_infinity(P)) {
+		sm9_z256_point_copy_affine(R, Q);
+		return;
+	}
+
 	sm9_z256_modp_mont_sqr(T1, Z1);
 	sm9_z256_modp_mont_mul(H, X2, T1);
 	sm9_z256_modp_sub(H, H, X1);
@@ -2080,6 +2086,19 @@ void sm9_z256_point_add_affine(SM9_Z256_POINT *R, const SM9_Z256_POINT *P, const
 	sm9_z256_modp_sub(Z3, Z3, T1);
 	sm9_z256_modp_mont_mul(T1, T1, Z1);
 	sm9_z256_modp_mont_mul(S2, Y2, T1);
+
+	// P = Q: the formulas degenerate, double instead (as sm9_z256_point_add does); P = -Q gives infinity
+	if (sm9_z256_is_zero(H)) {
+		sm9_z256_modp_sub(T1, S2, Y1);
+		if (sm9_z256_is_zero(T1)) {
+			SM9_Z256_POINT T;
+			sm9_z256_point_copy_affine(&T, Q);
+			sm9_z256_point_dbl(R, &T);
+		} else {
+			sm9_z256_point_set_infinity(R);
+		}
+		return;
+	}
 	sm9_z256_modp_mont_sqr(T1, H);
 	sm9_z256_modp_sub(Z3, Z3, T1);
 	sm9_z256_modp_dbl(I, T1);
